@@ -24,13 +24,20 @@ MODELLED = ("modelled: verify_client loop, ClientSecretBasic/Post, JWSAuthnMetho
             "verification and exp enforcement inside cryptojwt (field `unpack`), RequestParam, bearer_body")
 ASSUMPTIONS = ["cryptojwt.JWT.unpack accepts exactly signatures made with a key the key jar holds for the issuer, and rejects expired assertions (observed, not proved)"]
 
-ENDPOINTS = {"token": opbase.CLIAUTH, "introspection": opbase.CLIAUTH, "token_revocation": opbase.CLIAUTH, "userinfo": ["bearer_header", "bearer_body"]}
+# the token endpoint also serves public clients (method "public" last in its list): a request carrying only a client_id goes on
+# as that client, NOT authenticated
+ENDPOINTS = {"token": opbase.CLIAUTH + ["public"], "introspection": opbase.CLIAUTH, "token_revocation": opbase.CLIAUTH, "userinfo": ["bearer_header", "bearer_body"]}
 _env = None
+
+
+def _make():
+    from idpyoidc.server.oidc.token import Token
+    return opbase.make_op(more_endpoints={"token": {"path": "token", "class": Token, "kwargs": {"client_authn_method": ENDPOINTS["token"]}}})
 
 
 class Env:
     def __init__(self):
-        self.s = opbase.make_op()
+        self.s = _make()
         ctx = self.s.context
         self.kj = {"cB": build_keyjar([{"type": "RSA", "use": ["sig"]}, {"type": "EC", "crv": "P-256", "use": ["sig"]}]),
                    "cC": build_keyjar([{"type": "EC", "crv": "P-256", "use": ["sig"]}]),
@@ -58,6 +65,14 @@ class Env:
                 ctx.keyjar.import_jwks(self.kj[cid].export_jwks(), cid)
         self.issuer = ctx.issuer
         self.url = {name: self.s.get_endpoint(name).full_path for name in ENDPOINTS}
+
+
+def _restart(E):
+    """the provider moves to a fresh instance: export the endpoint context, build a new server from the same configuration, import"""
+    store = E.s.context.dump()
+    B = _make()
+    B.context.load(store, init_args={"upstream_get": B.unit_get, "handler": B.context.session_manager.token_handler})
+    E.s = B
 
 
 def env():
@@ -97,6 +112,11 @@ def gen_request(rng, jtis):
     else:
         r["basic"] = {"kind": "right"}
         r["post"] = {"kind": rng.choice(SECRET_KINDS), "id": rng.choice([cid, "cA"])}
+    if rng.random() < 0.12:
+        r["authflag"] = rng.choice(["true", "1", True])      # a request-supplied parameter named like the provider's own marker
+    if r["post"] is None and rng.random() < 0.25:
+        # authenticated in the header / by assertion as `cid`, while the body names another (or the same, or an unknown) client
+        r["post"] = {"kind": "empty", "id": rng.choice([x for x in ("cA", "cB", "cC", "cE") if x != cid] + [cid, "nobody"])}
     return r
 
 
@@ -115,6 +135,8 @@ def cases(rng, tier):
         for k, r in enumerate(reqs):
             if "replay_of" in r:
                 r["replay_of"] = next(j for j, q in enumerate(reqs) if q is not r and q.get("assertion") == r["assertion"] and "replay_of" not in q)
+        if rng.random() < 0.12 and len(reqs) > 2:
+            reqs[rng.randint(1, len(reqs) - 1)]["restart"] = True       # export / import into a fresh instance just before this request
         out.append({"t": "hist", "reqs": reqs})
     return out
 
@@ -155,6 +177,8 @@ def build(E, r, cache=None, idx=None):
             req["client_secret"] = sec
         view["pid"], view["psec"] = r["post"]["id"], (sec if sec != "" else None)
         truth["post"] = (r["post"]["id"], sec)
+    if r.get("authflag") is not None:
+        req["authenticated"] = r["authflag"]
     if r["bearer"]:
         headers["authorization"] = "Bearer " + r["bearer"]
         view["bearer"] = ("some", None)
@@ -236,23 +260,55 @@ def build(E, r, cache=None, idx=None):
     return req, {"headers": headers}, view, truth
 
 
+FILL = {"token": {"grant_type": "authorization_code", "code": "no-such-code", "redirect_uri": "https://rp.example/cb"},
+        "introspection": {"token": "no-such-token"}, "token_revocation": {"token": "no-such-token"}}
+
+
 def _outcome(E, r, req, http_info):
+    """the whole of Endpoint.parse_request up to the endpoint-specific part: what client_authentication returned (or raised) and the
+    request the endpoint-specific code is handed (client_id, authenticated) — observed by shadowing two bound methods on the instance"""
     ep = E.s.get_endpoint(r["ep"])
-    try:
-        ai = ep.client_authentication(ep.request_cls(**req) if req else ep.request_cls(), http_info, endpoint=ep)
-    except UnknownClient:
-        return ["unknownClient"]
-    except InvalidClient:
-        return ["invalidClient"]
-    except UnAuthorizedClient:
-        return ["nothing"]
-    except (ClientAuthenticationError, BearerTokenAuthenticationError):     # incl. InvalidToken (audience, replay)
-        return ["authnError"]
-    except Exception as e:
-        return ["exc", type(e).__name__]
+    cap = {}
+    if r["ep"] == "userinfo":
+        try:
+            cap["ai"] = ep.client_authentication(ep.request_cls(**req) if req else ep.request_cls(), http_info, endpoint=ep)
+        except Exception as e:
+            cap["exc"] = e
+    else:
+        orig = ep.client_authentication
+
+        def ca(request, http_info=None, **kw):
+            cap["ai"] = orig(request, http_info, **kw)
+            return cap["ai"]
+
+        def post(request, client_id="", **kw):
+            cap["seen"] = [request.get("client_id"), bool(request.get("authenticated")), client_id]
+            return request
+        ep.client_authentication, ep.do_post_parse_request = ca, post
+        try:
+            res = ep.parse_request(dict(FILL[r["ep"]], **req), http_info)
+            if "seen" not in cap:
+                cap["verify_error"] = str(res)[:80]
+        except Exception as e:
+            cap["exc"] = e
+        finally:
+            del ep.client_authentication, ep.do_post_parse_request
+    seen = cap.get("seen")
+    e = cap.get("exc")
+    if e is not None:
+        if isinstance(e, UnknownClient):
+            return ["unknownClient"], None
+        if isinstance(e, InvalidClient):
+            return ["invalidClient"], None
+        if isinstance(e, UnAuthorizedClient):
+            return ["nothing"], None
+        if isinstance(e, (ClientAuthenticationError, BearerTokenAuthenticationError)):     # incl. InvalidToken (audience, replay)
+            return ["authnError"], None
+        return ["exc", type(e).__name__], None
+    ai = cap.get("ai") or {}
     if ai.get("client_id"):
-        return ["accepted", ai["client_id"], ai.get("method")]
-    return ["nothing"]
+        return ["accepted", ai["client_id"], ai.get("method")], seen
+    return ["nothing"], seen
 
 
 def impl(c):
@@ -264,9 +320,12 @@ def impl(c):
     cache = {}
     for i, r in enumerate(c["reqs"]):
         clock.CLOCK.t += r["tick"]
+        if r.get("restart"):
+            _restart(E)
+            ctx = E.s.context
         req, hi, view, truth = build(E, r, cache, i)
-        out = _outcome(E, r, req, hi)
-        steps.append({"out": out, "view": view, "truth": truth, "now": clock.CLOCK.t - T0, "njti": len(ctx.jti_db)})
+        out, seen = _outcome(E, r, req, hi)
+        steps.append({"out": out, "seen": seen, "view": view, "truth": truth, "now": clock.CLOCK.t - T0, "njti": len(ctx.jti_db)})
     return {"steps": steps}
 
 
@@ -306,6 +365,13 @@ def compare(c, obs, outs):
         if m != st["out"]:
             d.append(f"request {i} {c['reqs'][i]}: outcome model={m} impl={st['out']} view={st['view']}")
             break
+        tf = next((x for x in f if x.startswith("T:")), "T:-")
+        if c["reqs"][i]["ep"] != "userinfo":
+            mt = None if tf == "T:-" else [None if tf.split(":")[1] == "none" else dec_str(tf.split(":")[1]), tf.split(":")[2] == "1"]
+            it = None if st.get("seen") is None else st["seen"][:2]
+            if mt != it:
+                d.append(f"request {i} {c['reqs'][i]}: the endpoint goes on as model={mt} impl={st.get('seen')} (client_id, authenticated)")
+                break
         if njti != st["njti"]:
             d.append(f"request {i}: replay cache size model={njti} impl={st['njti']}")
             break
@@ -353,6 +419,15 @@ def oracle(c, obs):
                     if a["token"] in accepted_tokens:
                         v.append({"cls": "replayed-assertion-accepted", "has_jti": bool(a["jti"])})
                     accepted_tokens.add(a["token"])
+        seen_by_ep = st.get("seen")
+        if seen_by_ep is not None:
+            # whoever the endpoint-specific code acts for must be the client whose credential was accepted
+            who = out[1] if out[0] == "accepted" else None
+            if seen_by_ep[1] and out[0] == "accepted" and out[2] in ("public", "none"):
+                v.append({"cls": "unauthenticated-marked-authenticated", "method": out[2], "request_param": r.get("authflag")})
+            elif seen_by_ep[1] and (who is None or seen_by_ep[0] != who or seen_by_ep[2] != who):
+                v.append({"cls": "treated-as-other-client", "authenticated_as": who, "goes_on_as": seen_by_ep[0], "handed_client_id": seen_by_ep[2],
+                          "body_client_id": (r.get("post") or {}).get("id")})
         a = truth.get("assertion")
         if a and a["jti"] and out[0] == "accepted" and out[2] in ("client_secret_jwt", "private_key_jwt"):
             seen.add((a["iss"], a["jti"]))
@@ -374,3 +449,26 @@ def classify(c, obs):
 
 def nontrivial(c, obs):
     return any(r["assertion"] or (r["basic"] and r["basic"]["kind"] != "right") for r in c["reqs"])
+
+
+def corpus():
+    """structured corners that random histories reach only now and then"""
+    def a(jti, **kw):
+        return dict({"kind": "own_key", "aud": "endpoint", "exp": "ok", "sub": "iss", "jti": "fresh", "jti_val": jti}, **kw)
+
+    def rq(ep, client, **kw):
+        return dict({"ep": ep, "client": client, "basic": None, "post": None, "assertion": None, "bearer": None, "tick": 0}, **kw)
+    out = []
+    # replay across an export / import into a fresh instance (the replay cache is part of the provider's state)
+    for ep in ("token", "introspection"):
+        for kind, cl in (("own_key", "cB"), ("own_hs", "cA")):
+            first = rq(ep, cl, assertion=a("corpus-%s-%s" % (ep, kind), kind=kind))
+            out.append({"t": "hist", "reqs": [first, rq("introspection", "cA", basic={"kind": "right"}),
+                                              dict(first, tick=5, replay_of=0, restart=True)]})
+    # authenticated as one client in the header / by assertion, the body names another one
+    for ep in ("token", "introspection", "token_revocation"):
+        out.append({"t": "hist", "reqs": [rq(ep, "cB", basic={"kind": "right"}, post={"kind": "empty", "id": "cA"}),
+                                          rq(ep, "cB", assertion=a("corpus-claim-%s" % ep), post={"kind": "empty", "id": "cA"}),
+                                          rq(ep, "cA", assertion=a("corpus-claim2-%s" % ep, kind="own_hs"), post={"kind": "empty", "id": "cB"}),
+                                          rq(ep, "cF", basic={"kind": "right"}, post={"kind": "empty", "id": "nobody"})]})
+    return out
